@@ -9,6 +9,7 @@ import (
 	"runtime"
 	"runtime/pprof"
 	"sort"
+	"strconv"
 	"strings"
 	"syscall"
 	"time"
@@ -22,14 +23,29 @@ type Footprint struct {
 
 func (f Footprint) String() string { return fmt.Sprintf("goroutines=%d fds=%d", f.Goroutines, f.FDs) }
 
+// countFDs counts the open descriptors except anonymous pipes. socketace never creates a pipe itself (those of the
+// standard-stream carriers are made and closed by the harness), but the Go runtime does: io.Copy between two TCP sockets
+// uses splice(2) through pipes kept in a pool that is emptied by the garbage collector, so their number follows the
+// collector's schedule, not the connections'.
 func countFDs() int {
 	d, err := os.Open("/proc/self/fd")
 	if err != nil {
 		return -1
 	}
-	defer d.Close()
 	names, _ := d.Readdirnames(-1)
-	return len(names) - 1 // minus the directory handle itself
+	d.Close()
+	n := 0
+	for _, name := range names {
+		l, err := os.Readlink("/proc/self/fd/" + name)
+		if err != nil {
+			continue // the directory handle itself, or closed meanwhile
+		}
+		if strings.HasPrefix(l, "pipe:[") {
+			continue
+		}
+		n++
+	}
+	return n
 }
 
 // Measure returns the current footprint.
@@ -140,5 +156,56 @@ func GoroutineSummary(top int) []string {
 		}
 		out = append(out, fmt.Sprintf("%dx %s", e.v, e.k))
 	}
+	return out
+}
+
+// FDSummary describes the open descriptors by kind; sockets are listed with their state from /proc/net/tcp where the
+// inode is found there ("socket:[inode] 127.0.0.1:port->127.0.0.1:port CLOSE_WAIT").
+func FDSummary() []string {
+	ents, err := os.ReadDir("/proc/self/fd")
+	if err != nil {
+		return nil
+	}
+	states := map[string]string{"01": "ESTABLISHED", "02": "SYN_SENT", "03": "SYN_RECV", "04": "FIN_WAIT1", "05": "FIN_WAIT2", "06": "TIME_WAIT", "07": "CLOSE", "08": "CLOSE_WAIT", "09": "LAST_ACK", "0A": "LISTEN", "0B": "CLOSING"}
+	byInode := map[string]string{}
+	for _, f := range []string{"/proc/net/tcp", "/proc/net/tcp6"} {
+		b, err := os.ReadFile(f)
+		if err != nil {
+			continue
+		}
+		for _, line := range strings.Split(string(b), "\n")[1:] {
+			fs := strings.Fields(line)
+			if len(fs) < 10 {
+				continue
+			}
+			port := func(a string) string {
+				i := strings.LastIndexByte(a, ':')
+				p, _ := strconv.ParseInt(a[i+1:], 16, 32)
+				return strconv.Itoa(int(p))
+			}
+			byInode[fs[9]] = fmt.Sprintf("tcp :%s->:%s %s", port(fs[1]), port(fs[2]), states[fs[3]])
+		}
+	}
+	count := map[string]int{}
+	for _, e := range ents {
+		l, err := os.Readlink("/proc/self/fd/" + e.Name())
+		if err != nil {
+			continue
+		}
+		if strings.HasPrefix(l, "socket:[") {
+			ino := strings.TrimSuffix(strings.TrimPrefix(l, "socket:["), "]")
+			if d, ok := byInode[ino]; ok {
+				l = "socket " + d
+			} else {
+				l = "socket (not tcp)"
+			}
+		}
+		count[l]++
+	}
+	var out []string
+	for k, v := range count {
+		out = append(out, fmt.Sprintf("%dx %s", v, k))
+	}
+	sort.Strings(out)
 	return out
 }
